@@ -378,7 +378,7 @@ class Engine(EngineBase, AccessMixin, StmtMixin, CallMixin):
 CVC5 = '/usr/bin/cvc5'
 
 
-def solve(assumptions, goal, timeout_ms, want_model=True, quick=False):
+def solve(assumptions, goal, timeout_ms, want_model=True, quick=False, seed_shift=0):
     """returns (result, backend, seconds, model|None, detail); result in proved / failed / unknown.
     z3's sequence solver is unstable on identical input, so an `unknown` is retried with other seeds before
     cvc5 gets the exported problem.  Only `unsat` (proved) and a `sat` whose model satisfies every assertion
@@ -397,6 +397,8 @@ def solve(assumptions, goal, timeout_ms, want_model=True, quick=False):
     has_quant = any(_has_quantifier(a) for a in asm) or _has_quantifier(goal)
     candidate = None
     plan = [(0, 2000)] if quick else [(0, timeout_ms // 8)] + [(sd, timeout_ms // 16) for sd in (1, 2, 3, 4, 5, 6)] + [(7, timeout_ms // 4), (8, timeout_ms // 4), (9, timeout_ms // 2)]
+    if seed_shift:
+        plan = [(sd + seed_shift + 10, tmo) for (sd, tmo) in plan]
     for (seed, tmo) in plan:
         s = z3.Solver()
         s.set('timeout', max(tmo, 200))
